@@ -33,7 +33,7 @@ def lemmas_and_cases(chk):
     out = os.path.join(wd, "cases.json")
     r = vlib.mc("CryptoLemmas", "MC_CryptoLemmas_%s.cfg" % chk.pid, workers=8, timeout=900, wd=wd,
                 env={"CASES_OUT": out, "CASES_GROUP": chk.pid, "CASES_SALT": str(chk.seed), "CASES_TIER": chk.tier})
-    chk.add_model("CryptoLemmas[%s]: %s" % (chk.pid, g["lemmas"]), r, "invariants " + g["invs"] + " (one state per case)")
+    chk.add_model("CryptoLemmas[%s]: %s" % (chk.pid, g["lemmas"]), r, "invariants " + g["invs"] + " (one state per case, plus 8 dummy lane-start states per lemma kind)")
     if not os.path.exists(out):
         raise MachineryError("case export failed:\n" + r.out[-3000:])
     cases = json.load(open(out))
